@@ -322,6 +322,23 @@ def classify(ctx, b, bi, t, idx_in_fn):
         return ('CHECKED', 'C01', 'dominated by validate() in a verified constructor', True, '')
     for (fre, cre, cls, by, reason) in TABLE:
         if re.search(fre, fn) and re.search(cre, callee):
+            if cls == 'HANDLE':
+                # the view of a handle is exactly its window: buffer[start..end] (fields 0, 1, 2 of self) — the window the handle analysis (D1/D2)
+                # keeps equal to the component; any other slice (buffer[start..], buffer[..end]) is not covered by that invariant
+                Th = terms.Terms(b)
+                x = Th.operand(t['args'][0]) if t['args'] else None
+                while x is not None and x[0] in ('ref', 'deref'):
+                    x = x[1]
+
+                def fld(y, i):
+                    while y[0] in ('ref', 'deref'):
+                        y = y[1]
+                    return y[0] == 'field' and y[2] == i and y[1][:2] == ('arg', 1)
+                ok_ = bool(x is not None and x[0] == 'call' and x[1].endswith('::index') and len(x[2]) == 2 and fld(x[2][0], 0)
+                           and x[2][1][0] == 'agg' and x[2][1][1][:2] == ('adt', 'std::ops::Range') and len(x[2][1][2]) == 2
+                           and fld(x[2][1][2][0], 1) and fld(x[2][1][2][1], 2))
+                if not ok_:
+                    return (cls, by, reason, False, 'the slice wrapped is not buffer[self.start..self.end], the window the handle keeps equal to the component')
             return (cls, by, reason, True, '')
     # a PRIVATE unsafe helper of the crate (e.g. three copies of a splice extracted into one fn): the call is justified when the caller
     # would be allowed to perform, itself, every unsafe operation the helper performs (the analyses of the mutators inline such helpers)
